@@ -492,3 +492,10 @@ func init() {
 	addMutant(Mutant{Name: "c12-orderedmap-emptiness-by-struct-zero", Property: "C12", File: "ytypes/node.go",
 		Old: "\t\t\t\t\tif om, isOrderedMap := fv.Interface().(ygot.GoOrderedMap); isOrderedMap {", New: "\t\t\t\t\tif om, isOrderedMap := fv.Interface().(ygot.GoOrderedMap); isOrderedMap && om.Len() < 0 {", Expect: "struct-zero-test"})
 }
+
+func init() {
+	addMutant(Mutant{Name: "c22-prefix-without-separator", Property: "C22", File: "gnmidiff/intent.go",
+		Old: "if pathToLeaf != path && !strings.HasPrefix(pathToLeaf, path+\"/\") {", New: "if !strings.HasPrefix(pathToLeaf, path) {", Expect: "path-prefix#"})
+	addMutant(Mutant{Name: "c09-lookup-compared-before-ok", Property: "C09", File: "util/gnmi.go",
+		Old: "\t\tcase ok && aVal == bVal, aVal == \"*\" && !ok:", New: "\t\tcase aVal == bVal, aVal == \"*\" && !ok:", Expect: "comparePathElem:key-lookup"})
+}
